@@ -215,7 +215,7 @@ def skeletons(tier):
     return out
 
 
-STAND_IN = dict(halo=17.0, bg=0.4, xm=12.0, ym=9.0, xmx=60.0, ymx=36.0)
+STAND_IN = dict(halo=17.0, bg=0.4, xm=12.0, ym=9.0, xmx=60.0, ymx=40.0)
 
 
 def values(prefix, halo_zero=False):
@@ -304,9 +304,14 @@ def result_slots(sk):
 def domain_assumptions(va):
     # physically meaningful requests: positive extents, increasing heights, Kz > 0, halo >= 0
     # (the recorded run resolved the default halo on the path xmx > ymx)
-    c = [va["xmx"] > va["ymx"], va["ymx"] > 0, va["halo"] >= 0]
-    c += [va["z%d" % i] < va["z%d" % (i + 1)] for i in range(NZ - 1)]
-    c += [va["Kz%d" % i] > 0 for i in range(NZ)]
+    # moderate magnitudes so that a model can be replayed on the real solver as it stands
+    c = [va["xmx"] > va["ymx"], va["ymx"] >= 40, va["xmx"] <= 400, va["xmx"] >= 60, va["halo"] >= 0, va["halo"] <= 100]
+    c += [va["z0"] >= z3.RealVal("0.05"), va["z%d" % (NZ - 1)] <= 3]
+    c += [va["z%d" % (i + 1)] - va["z%d" % i] >= z3.RealVal("0.1") for i in range(NZ - 1)]
+    for i in range(NZ):
+        c += [va["%s%d" % (n, i)] >= z3.RealVal("0.5") for n in ("Kx", "Ky", "Kz")] + [va["%s%d" % (n, i)] <= 2 for n in ("Kx", "Ky", "Kz")]
+        c += [va["%s%d" % (n, i)] >= -3 for n in ("u", "v")] + [va["%s%d" % (n, i)] <= 3 for n in ("u", "v")]
+    c += [va["bg"] >= -10, va["bg"] <= 10, va["xm"] >= 0, va["xm"] <= va["xmx"], va["ym"] >= 0, va["ym"] <= va["ymx"]]
     return c
 
 
@@ -416,22 +421,17 @@ def _model(m, vars_):
 
 
 def _request(sk, model):
-    """concrete solver arguments: stand-ins, overridden by the model where the model's value is admissible"""
-    g = lambda k, d: model.get(k, d) if model else d
+    """concrete solver arguments: the model's values (they satisfy domain_assumptions), stand-ins where the model is silent"""
+    g = lambda k, d: float(model.get(k, d)) if model else d
     zc = np.linspace(0.05, 2.5, NZ)
     z = np.array([g("z%d" % i, zc[i]) for i in range(NZ)], float)
-    if not np.all(np.diff(z) > 1e-6) or z[0] <= 0:
-        z = zc
     prof = []
     for n, d in (("u", 2.5), ("v", -1.2), ("Kx", 1.6), ("Ky", 0.9), ("Kz", 0.6)):
-        a = np.array([g("%s%d" % (n, i), d) for i in range(NZ)], float)
-        if n.startswith("K"):
-            a = np.where(a > 1e-3, a, d)
-        prof.append(np.clip(a, -50, 50))
-    dom = (float(np.clip(g("xmx", 60.0), 10, 1e3)), float(np.clip(g("ymx", 36.0), 10, 1e3)))
-    kw = dict(modes=tuple(sk["modes"]), meas_pt=(float(g("xm", 12.0)), float(g("ym", 9.0))), srf_bg_conc=float(g("bg", 0.4)),
+        prof.append(np.array([g("%s%d" % (n, i), d) for i in range(NZ)], float))
+    dom = (g("xmx", 60.0), g("ymx", 40.0))
+    kw = dict(modes=tuple(sk["modes"]), meas_pt=(g("xm", 12.0), g("ym", 9.0)), srf_bg_conc=g("bg", 0.4),
               footprint=True, analytic=sk["analytic"],
-              halo=(0.0 if sk.get("halo_zero") else (float(np.clip(g("halo", 17.0), 0.5, 200)) if sk["halo_given"] else None)),
+              halo=(0.0 if sk.get("halo_zero") else (g("halo", 17.0) if sk["halo_given"] else None)),
               precision=sk["precision"])
     return np.ones(tuple(sk["shape"])), z, tuple(prof), dom, LEVELS[sk["levels"]], kw
 
